@@ -8,3 +8,19 @@ package cbc
 //@ func (k Key) In(set) (r)
 //@   ensures r <==> keyAmong(k, set)
 //@   loop 1 invariant forall j int :: 0 <= j && j < idx ==> set[j] != k
+//
+// ---- C18: a definition knows a code when one of its values carries it
+//@ pred valuesOK2(l []*Definition) bool = forall i int :: 0 <= i && i < len(l) ==> l[i] != nil
+//@ pred codeAmong(code Code, l []*Definition) bool = exists i int :: 0 <= i && i < len(l) && l[i].Code == code
+//@ func (d *Definition) CodeDef(code) (r)
+//@   requires d != nil && valuesOK2(d.Values)
+//@   ensures r != nil <==> codeAmong(code, d.Values)
+//@   loop 1 invariant forall j int :: 0 <= j && j < idx ==> d.Values[j].Code != code
+//@ func (d *Definition) HasCode(code) (r)
+//@   requires d != nil && valuesOK2(d.Values)
+//@   ensures r <==> codeAmong(code, d.Values)
+//
+// whether a key has a sub-key is a function of the two keys (strings.Split based: outside the subset)
+//@ func (k Key) Has(ke) (r)
+//@   trusted reads its arguments only; the result is a function of the two keys
+//@   pure
